@@ -3,6 +3,7 @@ import Bmc.Proofs.GenLoops.BuildAndSend
 import Bmc.Proofs.GenDec.V2Session
 import Bmc.Proofs.GenDec.AES128CBC
 import Bmc.Proofs.GenDec.Message
+import Bmc.Proofs.EndToEnd.SessionC04
 #print axioms Bmc.Proofs.C04.accept_sound
 #print axioms Bmc.Proofs.C04.unauthenticated_or_foreign_is_retry
 #print axioms Bmc.Proofs.C04.accepted_satisfies_mac
@@ -17,3 +18,4 @@ import Bmc.Proofs.GenDec.Message
 #print axioms Bmc.Proofs.GenDec.V2Session_gen_eq
 #print axioms Bmc.Proofs.GenDec.AES128CBC_gen_eq
 #print axioms Bmc.Proofs.GenDec.Message_gen_eq
+#print axioms Bmc.Proofs.EndToEnd.generated_loop_accepts_only_authentic
